@@ -26,7 +26,15 @@ Min2(a, b) == IF a < b THEN a ELSE b
 IntOf(x) == x \div 100                                \* int(m) for m >= 0
 CeilOf(x) == CeilDiv(x, 100)
 
-CoarseRange(mm, mdl) == IF mdl = "FSC" THEN (-CeilOf(mm))..CeilOf(mm) ELSE (-IntOf(mm))..IntOf(mm)
+(* PCC: the fine window spans -0.75 .. +0.70 px around the coarse peak, so the coarse peak may lie up to
+   0.7 px outside the range (the fine stage brings the result back inside) *)
+PccCoarse(mm) == (mm + 69) \div 100          \* floor(m + 0.7 - 0.001): the window reaches +0.70 px
+CoarseRange(mm, mdl) == IF mdl = "FSC" THEN (-CeilOf(mm))..CeilOf(mm)
+                        ELSE IF mdl = "PCC" THEN (-PccCoarse(mm))..PccCoarse(mm)
+                        ELSE (-IntOf(mm))..IntOf(mm)
+(* named historical deviation (acryo 0.4.16 + first PCC fix): coarse peak confined to +-int(m), which left
+   displacements in (int(m) + 0.70, m] unreachable *)
+CoarseRange_pccInt(mm) == (-IntOf(mm))..IntOf(mm)
 (* mesh bounds in 1/20 px relative to p (p in px) *)
 MeshLo(mm, pp) == CeilDiv(Max2(-100 * pp - mm, -100), 5)
 MeshHi(mm, pp) == FloorDiv(Min2(-100 * pp + mm, 100), 5)
@@ -34,8 +42,8 @@ MeshHi(mm, pp) == FloorDiv(Min2(-100 * pp + mm, 100), 5)
 MeshLo_v0416(mm, pp) == RoundDiv(Max2(-100 * pp - mm, -100), 5)
 MeshHi_v0416(mm, pp) == RoundDiv(Min2(-100 * pp + mm, 100), 5)
 (* PCC fine window: index i in 0..29, offset (i - 15)/20 px *)
-PccLo(mm, pp) == Max2(15 - ((100 * pp + mm) \div 5), 0)
-PccHi(mm, pp) == Min2(15 + ((mm - 100 * pp) \div 5), 29)
+PccLo(mm, pp) == Max2(15 - FloorDiv(100 * pp + mm, 5), 0)
+PccHi(mm, pp) == Min2(15 + FloorDiv(mm - 100 * pp, 5), 29)
 FineRange(mm, mdl, pp) == IF mdl = "PCC" THEN {i - 15 : i \in PccLo(mm, pp)..PccHi(mm, pp)} ELSE MeshLo(mm, pp)..MeshHi(mm, pp)
 Shift(pp, jj) == 100 * pp + 5 * jj
 
@@ -54,10 +62,9 @@ ZeroReachable == pc = "coarse" => (0 \in CoarseRange(m, model) /\ 0 \in FineRang
 (* the exact limit itself is reachable when it lies on the 1/20-px grid (C04: edge of the range) *)
 Reachable(mm, mdl) == UNION {{Shift(pp, jj) : jj \in FineRange(mm, mdl, pp)} : pp \in CoarseRange(mm, mdl)}
 EdgeReachable == (pc = "coarse" /\ m % 5 = 0 /\ model \in {"ZNCC", "NCC"}) => (m \in Reachable(m, model) /\ -m \in Reachable(m, model))
-(* PCC: the coarse peak is confined to +-int(m) and the fine window spans -0.75 .. +0.70 px around it,
-   so displacements in (int(m) + 0.70, m] cannot be returned: a candidate for C04 at the range edge *)
+(* PCC reaches the grid point next to either end of the range *)
 PccEdgeGap(mm) == mm - (CHOOSE x \in Reachable(mm, "PCC") : \A y \in Reachable(mm, "PCC") : y <= x)
-PccGapBounded == (pc = "coarse" /\ model = "PCC") => PccEdgeGap(m) <= 29
+PccGapBounded == (pc = "coarse" /\ model = "PCC") => (PccEdgeGap(m) <= 4 /\ \E x \in Reachable(m, "PCC") : x + m <= 4)
 (* characterisation of the historical mesh rounding: it overshoots exactly off the 1/20-px grid *)
 V0416Overshoot(mm) == \E pp \in (-IntOf(mm))..IntOf(mm) : Shift(pp, MeshHi_v0416(mm, pp)) > mm
 V0416OvershootIffOffGrid == pc = "coarse" => (V0416Overshoot(m) => m % 5 # 0)
